@@ -87,7 +87,8 @@ def cases(draw, backend=None):
         kw = {'scale_bit': draw(st.sampled_from([16, 24])), 'shift_pos': draw(st.sampled_from([16, 24]))}
     return {'backend': backend, 'spec': spec, 'w_prec': w_prec, 'a_prec': a_prec, 'kwargs': kw,
             'wseed': draw(st.integers(0, 50)), 'aseed': draw(st.integers(0, 200)),
-            'xseed': draw(st.integers(0, 50))}
+            'xseed': draw(st.integers(0, 50)),
+            'bias_gain': draw(st.sampled_from([1, 1, 1, 8, 64]))}
 
 
 # ----------------------------------------------------------------------------------------
@@ -142,6 +143,14 @@ def oracle(case) -> Result:
     if fq is None:
         return res
     fq.eval()
+    gain = case.get('bias_gain', 1)
+    if gain != 1:
+        # large biases (as after folding a BatchNorm with non-trivial statistics): the integer
+        # bias then needs most of its 32 bits and the shift search has to back off
+        with torch.no_grad():
+            for m in fq.modules():
+                if isinstance(m, (QuantConv2d, QuantLinear)) and m.bias is not None:
+                    m.bias.mul_(gain)
     calibrate(fq, x)
     with torch.no_grad():
         logits = fq(x)
@@ -313,7 +322,10 @@ def oracle(case) -> Result:
             e = float((sc / 2.0 ** sh - tgt).abs().mean())
             best = e if best is None else min(best, e)
         mine = float((appr - tgt).abs().mean())
-        if best is not None and mine > 3 * best + 2.0 ** -(sp - 1) + 1e-6 * float(
+        # (not demanded by the property as such - it guards the 'bound implied by its own
+        # approximation' clause against a degenerate shift choice - hence the generous slack: an
+        # approximation error below 0.1% of the target is never reported)
+        if best is not None and mine > 3 * best + 2.0 ** -(sp - 1) + 1e-3 * float(
                 tgt.abs().mean()) + 1e-15:
             res.bad('chosen-shift-far-from-the-error-minimising-one', **ctx, shift=shift,
                     mean_error=mine, best_achievable=best)
